@@ -17,7 +17,7 @@ from vt.e1.values import (SArr, SList, STT, SNum, SMaxRank, SInf, INF, SNone, NO
                           fresh, fresh_fun, zi, zb, as_conc, is_conc_int, val_ite, arr_ite)
 from vt.e1 import npmodel
 from vt.e1 import heap
-from vt.e1.values import is_tag, SObj, SArrN
+from vt.e1.values import is_tag, SObj, SArrN, _Memo
 
 
 class Obligation:
@@ -106,7 +106,7 @@ def _clone(v, memo):
             return memo[id(v)]
         n = SList(v.ref, v.length, v.fn, None, v.kind)
         n.transients = dict(getattr(v, 'transients', {}) or {})
-        for extra in ('slice_of', 'split_points', 'role_tag', 'index_role', 'role_strict', 'stride_writes'):
+        for extra in ('slice_of', 'split_points', 'role_tag', 'index_role', 'role_strict', 'stride_writes', 'writes'):
             if extra in v.__dict__:
                 setattr(n, extra, v.__dict__[extra])
         memo[id(v)] = n
@@ -114,6 +114,15 @@ def _clone(v, memo):
             n.items = [_clone(x, memo) for x in v.items]
             n.length = len(n.items)
             n.fn = None
+        elif v.kind == 'tt' and v.__dict__.get('writes'):
+            # materialised (mutable) elements live in the element function's closures: rebuild them around cloned objects
+            ws, f = [], v.writes[0][2]
+            for i0, val, _ in v.writes:
+                val2 = _clone(val, memo)
+                ws.append((i0, val2, f))
+                f = _Memo(lambda j, f=f, i0=i0, val2=val2: val_ite(j == i0, val2, f(j)))
+            n.fn = f
+            n.writes = ws
         return n
     if isinstance(v, STT):
         if id(v) in memo:
@@ -689,6 +698,14 @@ class Executor:
             return True
 
         def safe(node):
+            if isinstance(node, ast.Subscript) and isinstance(node.value, ast.Name):
+                l_ = state.env.get(node.value.id)
+                if isinstance(l_, SList) and l_.kind == 'tt':
+                    # an element of a list of mutable tensor trains is handed to a callee: every element is abstracted
+                    if id(l_) not in done:
+                        done.add(id(l_))
+                        self.havoc_list(l_, state, False)
+                    return _IterLocal()
             try:
                 return self.ev(node, state)
             except Exception:
@@ -1476,6 +1493,11 @@ class Executor:
             if saved is not None:
                 state.env[var] = saved
             return SList(state.alloc(), None, items=items)
+        if (isinstance(node.elt, ast.Call) and isinstance(node.elt.func, ast.Attribute) and node.elt.func.attr == 'copy' and not node.elt.args
+                and not node.elt.keywords and var not in {x.id for x in ast.walk(node.elt) if isinstance(x, ast.Name)}):
+            recv = self.ev(node.elt.func.value, state)
+            if isinstance(recv, STT):
+                return self.tt_copies(recv, n, state, node.lineno)
         # symbolic length: map semantics.  The element expression is evaluated once for a generic index j under the
         # assumption lo <= j < hi; its obligations are thereby proved for every element.  Buffers allocated while
         # evaluating the element are numbered  base + (j - lo) * width + offset  (width = allocations per element).
@@ -1502,6 +1524,32 @@ class Executor:
             return subst_value(val, sub_)
         kind = 'arr' if isinstance(val, SArr) else 'int' if (is_conc_int(val) or isinstance(val, z3.ArithRef)) else 'bool' if isinstance(val, (bool, z3.BoolRef)) else 'any'
         return SList(lref, n, fn=fn, kind=kind)
+
+    def tt_copies(self, recv, n, state, line):
+        """[t.copy() for _ in range(n)] with symbolic n: a list of n mutable tensor trains.  The call is checked once against
+        the contract of TT.copy (its preconditions do not depend on the slot); every element satisfies the post-condition of
+        that contract, and the elements are distinct objects (allocation model: each call allocates fresh ids)."""
+        from vt.e1 import calls
+        from vt.e1.contract import SpecView, snapshot, valid
+        c = self.ctx.registry.get('TT.copy')
+        if c is None:
+            raise Unsupported('no contract for TT.copy (line %d)' % line)
+        calls.call_contract(self, state.clone(), 'TT.copy', [recv], {}, line)
+        A = c.bind([recv], {})
+        S = SpecView(A, {k: snapshot(v) for k, v in A.items()}, state.mark, c.call_inst(A), state)
+        S.at_call = True
+        lst = SList(state.alloc(), n, fn=sym_elem_fn('tt', state), kind='tt')
+        m_new = fresh('cm')
+        state.assume(m_new >= state.mark)
+
+        def body(j):
+            e = lst.fn(j)
+            below = z3.And(*[zi(r) < m_new for r in (e.ref, e.row_dims.ref, e.col_dims.ref, e.ranks.ref, e.cores.ref)],
+                           FA(0, zi(e.order), lambda q: e.cores.fn(q).buf < m_new))
+            return z3.And(*[zb(g) for _, g in c.ensures(S, e)], valid(e), below)
+        state.assume(FA(0, n, body))
+        state.mark = m_new
+        return lst
 
     def ex_Call(self, node, state):
         from vt.e1 import calls
@@ -1574,6 +1622,23 @@ def sym_elem_fn(kind, state):
         fk = fresh_fun('bct', z3.IntSort(), z3.BoolSort())
         ff = {n: fresh_fun('b' + n, z3.IntSort(), z3.BoolSort()) for n in SArr.FLAGS}
         return lambda j: SArr([f(j) for f in fs], fc(j), fb(j), fk(j), ndim=fnd(j), flags={n: g(j) for n, g in ff.items()})
+    if kind == 'tt':
+        # a list of *mutable, pairwise distinct* tensor trains (one fresh object per slot - allocation model): element j is
+        # described by uninterpreted functions of j (ids, order) and of (j, q) (metadata entries, cores)
+        I, B = z3.IntSort(), z3.BoolSort()
+        f1 = {n: fresh_fun('t' + n, I, I) for n in ('ref', 'order', 'rdref', 'cdref', 'rkref', 'cref')}
+        f2 = {n: fresh_fun('t' + n, I, I, I) for n in ('rd', 'cd', 'rk', 'sh0', 'sh1', 'sh2', 'sh3', 'nd', 'buf')}
+        b2 = {n: fresh_fun('t' + n, I, I, B) for n in ('cx', 'ct', 'own') + tuple(SArr.FLAGS)}
+
+        def elem(j):
+            j = zi(j)
+            d = f1['order'](j)
+            mk = lambda nm, ref, n: SList(f1[ref](j), n, fn=lambda q, nm=nm: f2[nm](j, zi(q)), kind='int')      # noqa
+            cores = SList(f1['cref'](j), d, kind='arr', fn=lambda q: SArr(
+                [f2['sh%d' % k](j, zi(q)) for k in range(4)], b2['cx'](j, zi(q)), f2['buf'](j, zi(q)), b2['ct'](j, zi(q)), ndim=f2['nd'](j, zi(q)),
+                flags={n: b2[n](j, zi(q)) for n in SArr.FLAGS}, own=b2['own'](j, zi(q))))
+            return STT(f1['ref'](j), d, mk('rd', 'rdref', d), mk('cd', 'cdref', d), mk('rk', 'rkref', d + 1), cores)
+        return elem
     if kind.startswith('optarr'):
         nd = int(kind[6:])
         fs = [fresh_fun('osh%d' % k, z3.IntSort(), z3.IntSort()) for k in range(nd)]
